@@ -369,6 +369,26 @@ def validate_traces(module, cfg, trace_file, timeout=600, workdir=None, max_reje
     return total - len(rejections), rejections, tlc_out
 
 
+def validate_cases(module, cfg, trace_file, timeout=900, workdir=None):
+    """Validates a batch of independent Case events in one TLC run; returns (n_cases, failed case events)."""
+    wd = workdir or scratch('tvc')
+    r = tlc(module, cfg, workdir=wd, workers=1, timeout=timeout, env={'VERIF_TRACE': trace_file})
+    m = re.search(r'"HWM",\s*(\d+),\s*(\d+)', r['out'])
+    mf = re.search(r'"FAILED",\s*(\{[^}]*\})', r['out'])
+    if not m or not mf:
+        raise Broken('case validation produced no result (%s/%s):\n%s' % (module, cfg, r['out'][-3000:]))
+    if int(m.group(1)) < int(m.group(2)):
+        raise Broken('case validation stopped at line %s of %s' % (m.group(1), m.group(2)))
+    failed = set(int(x) for x in re.findall(r'\d+', mf.group(1)))
+    cases = {}
+    for l in open(trace_file):
+        if l.strip():
+            e = json.loads(l)
+            if e.get('ev') == 'Case':
+                cases[e['n']] = e
+    return len(cases), [cases[n] for n in sorted(failed) if n in cases]
+
+
 # --------------------------------------------------------------------------
 # known findings and verdicts
 
